@@ -43,7 +43,7 @@ pub struct Case {
 #[derive(Clone, Copy)]
 pub struct C02;
 
-pub const BOMB_KINDS: [&str; 8] = ["nested_members", "nested_bare", "nested_unclosed", "nested_in_set", "wide_set", "many_groups", "many_attrs", "wide_collection"];
+pub const BOMB_KINDS: [&str; 11] = ["nested_members", "nested_bare", "nested_unclosed", "nested_in_set", "nested_named_begins", "nested_named_members", "nested_seeded", "wide_set", "many_groups", "many_attrs", "wide_collection"];
 
 fn elem(out: &mut Vec<u8>, tag: u8, name: &[u8], value: &[u8]) {
     out.push(tag);
@@ -97,6 +97,79 @@ pub fn bomb(kind: &str, n: u32) -> Vec<u8> {
                 elem(&mut b, 0x37, b"", b"");
             }
         }
+        "nested_named_begins" => {
+            // a misbehaving peer names every inner begCollection
+            elem(&mut b, 0x34, b"a", b"");
+            for _ in 1..n {
+                elem(&mut b, 0x4a, b"", b"m");
+                elem(&mut b, 0x34, b"n", b"");
+            }
+            for _ in 0..n {
+                elem(&mut b, 0x37, b"", b"");
+            }
+        }
+        "nested_named_members" => {
+            // member names carried in the *name* field of the memberAttrName element
+            elem(&mut b, 0x34, b"a", b"");
+            for _ in 1..n {
+                elem(&mut b, 0x4a, b"m", b"x");
+                elem(&mut b, 0x34, b"", b"");
+            }
+            for _ in 0..n {
+                elem(&mut b, 0x37, b"", b"");
+            }
+        }
+        "nested_seeded" => {
+            // n is depth and seed: every level draws one of six shapes (named / unnamed begin, member name in the
+            // value or the name field, a scalar sibling, an early end followed by a re-open)
+            let mut x = n as u64 ^ 0x9e37_79b9_7f4a_7c15;
+            let depth = 130 + (n % 30_000);
+            elem(&mut b, 0x34, b"a", b"");
+            let mut open = 1usize;
+            for _ in 1..depth {
+                let r = crate::rng::splitmix(&mut x) % 6;
+                match r {
+                    0 => {
+                        elem(&mut b, 0x4a, b"", b"m");
+                        elem(&mut b, 0x34, b"", b"");
+                        open += 1;
+                    }
+                    1 => {
+                        elem(&mut b, 0x4a, b"", b"m");
+                        elem(&mut b, 0x34, b"n", b"");
+                        open += 1;
+                    }
+                    2 => {
+                        elem(&mut b, 0x4a, b"k", b"");
+                        elem(&mut b, 0x34, b"", b"");
+                        open += 1;
+                    }
+                    3 => {
+                        elem(&mut b, 0x34, b"", b"");
+                        open += 1;
+                    }
+                    4 => {
+                        elem(&mut b, 0x4a, b"", b"s");
+                        elem(&mut b, 0x21, b"", &[0, 0, 0, 1]);
+                        elem(&mut b, 0x4a, b"", b"m");
+                        elem(&mut b, 0x34, b"", b"");
+                        open += 1;
+                    }
+                    _ => {
+                        if open > 1 {
+                            elem(&mut b, 0x37, b"", b"");
+                            open -= 1;
+                        }
+                        elem(&mut b, 0x4a, b"", b"m");
+                        elem(&mut b, 0x34, b"q", b"");
+                        open += 1;
+                    }
+                }
+            }
+            for _ in 0..open {
+                elem(&mut b, 0x37, b"", b"");
+            }
+        }
         "wide_set" => {
             elem(&mut b, 0x21, b"a", &[0, 0, 0, 0]);
             for i in 0..n {
@@ -133,11 +206,12 @@ fn bombs(tier: Tier) -> Vec<(&'static str, u32)> {
         Tier::Quick => &[64, 1000, 20_000, 100_000],
         Tier::Thorough => &[8, 64, 129, 500, 1000, 4000, 9000, 20_000, 50_000, 100_000],
     };
-    for k in ["nested_members", "nested_bare", "nested_unclosed", "nested_in_set"] {
+    for k in ["nested_members", "nested_bare", "nested_unclosed", "nested_in_set", "nested_named_begins", "nested_named_members"] {
         for &d in depths {
             // keep every bomb <= 1 MiB
             let per = match k {
-                "nested_members" | "nested_unclosed" => 16,
+                "nested_members" | "nested_unclosed" | "nested_named_members" => 17,
+                "nested_named_begins" => 18,
                 "nested_in_set" => 31,
                 _ => 10,
             };
@@ -147,6 +221,9 @@ fn bombs(tier: Tier) -> Vec<(&'static str, u32)> {
     for k in ["wide_set", "many_attrs", "wide_collection"] {
         v.push((k, 1000));
         v.push((k, if k == "wide_set" { 100_000 } else { 60_000 }));
+    }
+    for i in 0..(if tier == Tier::Thorough { 24u32 } else { 6 }) {
+        v.push(("nested_seeded", 7919 * (i + 1)));
     }
     v.push(("many_groups", 1000));
     v.push(("many_groups", 1_000_000));
@@ -228,6 +305,10 @@ impl Prop for C02 {
             let (k, n) = bl[run as usize];
             let mode = Mode::ALL[(run % 4) as usize];
             return Case { input: Input::Bomb { kind: k.to_string(), n }, mode, spec: SourceSpec::default(), style: "whole".into(), damage: vec![] };
+        }
+        if rng.chance(1, 4000) {
+            let mode = *rng.pick(&Mode::ALL);
+            return Case { input: Input::Bomb { kind: "nested_seeded".into(), n: rng.next() as u32 }, mode, spec: SourceSpec::default(), style: "whole".into(), damage: vec![] };
         }
         let mut shape = ShapeCfg::swarm(rng);
         if rng.chance(1, 20) {
@@ -424,7 +505,7 @@ impl Prop for C02 {
     }
 
     fn rule(&self) -> String {
-        "Fault-reachable inputs only: each run takes a reference-encoded seeded wire tree and applies 1-3 faults from a per-run random subset of 20 kinds (Byzantine printer: lying name/value lengths (+-1, 0, max, swallow-next), fixed-width values written with width 0-16, lying inner lengths of the with-language syntaxes, tag substitution by any byte, token delete / duplicate / swap / splice from another message, collection imbalance; in-flight: bit flips, byte overwrite, truncation with/without garbage tail, chunk drop / duplication / swap, garbage insertion), plus a fixed list of structural bombs per tier (nesting depth up to 100000 / 1 MiB, set width, group and attribute count). The damaged stream is delivered under a seeded schedule to one of the four parser front ends; whatever comes back is displayed, re-encoded, traversed, cloned and dropped; then IppValue::parse is called on every (tag, value) element the reference tokenizer can still cut out. Runs execute on 2 MiB threads inside isolated worker processes; a killed worker is attributed to the run it was executing. Invariants: no panic, no process death, source calls <= 2*len + events + 64, <= 8 reads after EOF, executor poll bound, 60 s watchdog. distinct_nontrivial = distinct hashes of (input bytes prefix+length, front end, source call sequence) among damaged or bomb inputs longer than 9 bytes. NOT covered: the exhaustive (tag x length x fill) grid and the all-token-sequences-up-to-k enumeration of the quantifier."
+        "Fault-reachable inputs only: each run takes a reference-encoded seeded wire tree and applies 1-3 faults from a per-run random subset of 20 kinds (Byzantine printer: lying name/value lengths (+-1, 0, max, swallow-next), fixed-width values written with width 0-16, lying inner lengths of the with-language syntaxes, tag substitution by any byte, token delete / duplicate / swap / splice from another message, collection imbalance; in-flight: bit flips, byte overwrite, truncation with/without garbage tail, chunk drop / duplication / swap, garbage insertion), plus a fixed list of structural bombs per tier (nesting depth up to 100000 / 1 MiB in six shapes incl. named inner begins, member names in the name field and seeded mixes of shapes; set width, group and attribute count). The damaged stream is delivered under a seeded schedule to one of the four parser front ends; whatever comes back is displayed, re-encoded, traversed, cloned and dropped; then IppValue::parse is called on every (tag, value) element the reference tokenizer can still cut out. Runs execute on 2 MiB threads inside isolated worker processes; a killed worker is attributed to the run it was executing. Invariants: no panic, no process death, source calls <= 2*len + events + 64, <= 8 reads after EOF, executor poll bound, 60 s watchdog. distinct_nontrivial = distinct hashes of (input bytes prefix+length, front end, source call sequence) among damaged or bomb inputs longer than 9 bytes. NOT covered: the exhaustive (tag x length x fill) grid and the all-token-sequences-up-to-k enumeration of the quantifier."
             .into()
     }
     fn assumptions(&self) -> Vec<String> {
